@@ -58,6 +58,10 @@ def corpus(rng, n):
     full = ['Name = "n"', 'Artist = "a"', 'Charter = "c"', 'Album = "al"', 'Year = ", 2001"', "Offset = 3", "Difficulty = 4", "PreviewStart = 10", "PreviewEnd = 20",
             'Genre = "metal"', 'MediaType = "vinyl"', 'MusicStream = "song.ogg"', "Player2 = rhythm", 'GuitarStream = "g.ogg"']
     texts.append((chart_text(song=full, sync=ok_sync), None))
+    # a field written twice (the first line counts), at different positions of the section in different charts
+    texts.append((chart_text(song=['Charter = "c"', 'Artist = "a"', 'Name = "third line"'], sync=ok_sync), None))
+    texts.append((chart_text(song=['Name = "Song B"', 'Artist = "b"', 'Name = "Song B (old title)"', "Offset = 2", "Offset = 9"], sync=ok_sync), None))
+    texts.append((chart_text(song=["Offset = 5", 'Name = "late"', 'Genre = "g"', 'Name = "later"'], sync=ok_sync), None))
     texts.append((chart_text(sync=ok_sync), None))
     # many plain text events; then sections / lyrics
     texts.append((chart_text(sync=ok_sync, events=['%d = E "t%d"' % (i, i) for i in range(12)]), None))
